@@ -198,8 +198,8 @@ theorem jsonableP_append (a b : List (Str × PyVal)) : jsonableP (a ++ b) = (jso
   | nil => simp [jsonableP]
   | cons x xs ih => obtain ⟨k, v⟩ := x; simp [jsonableP, ih, Bool.and_assoc]
 
-/-- values the MCP converter turns into something `json.dumps` accepts: no holographic value, no plain dict -/
-def Value.mcpOk (v : Value) : Bool := !v.isHolo && !v.isPyDict
+/-- values the MCP converter turns into something `json.dumps` accepts: no plain dict (nested META block) -/
+def Value.mcpOk (v : Value) : Bool := !v.isPyDict
 
 mutual
 theorem convertValue_jsonable : ∀ v : Value, valueAll Value.mcpOk v = true → jsonable (convertValue true v) = true
@@ -215,8 +215,8 @@ theorem convertValue_jsonable : ∀ v : Value, valueAll Value.mcpOk v = true →
     simp only [valueAll, Bool.and_eq_true] at h
     simp only [convertValue, jsonable]; exact jsonableP_dictOf _ (convertPairs_jsonable ps h.2)
   | .zone c t f, _ => by cases t <;> simp [convertValue, jsonable, jsonableP, optStr]
-  | .holo _, h => by simp [valueAll, Value.mcpOk, Value.isHolo] at h
-  | .pydict _, h => by simp [valueAll, Value.mcpOk, Value.isPyDict, Value.isHolo] at h
+  | .holo _, _ => by simp [convertValue, jsonable]
+  | .pydict _, h => by simp [valueAll, Value.mcpOk, Value.isPyDict] at h
 theorem convertItems_jsonable : ∀ xs : List Value, valueAllL Value.mcpOk xs = true → jsonableL (convertItems true xs) = true
   | [], _ => by simp [convertItems, jsonableL]
   | x :: xs, h => by
